@@ -145,6 +145,19 @@ def drain(scanner):
     return hits, extra
 
 
+def reuse_call(live, fn, *args, **kw):
+    """Call a function that re-configures live.seq. A BufferError while a memoryview of the sequence is alive is the
+    buffer protocol's way of refusing to move exported memory (as bytearray does): the views are released and the call
+    is made once more, and THAT outcome is judged. A BufferError without a live view is judged like any other exception."""
+    res = call(fn, *args, **kw)
+    if is_exc(res) and res[1] == "BufferError" and live.views:
+        for v in live.views:
+            v.release()
+        live.views = []
+        res = call(fn, *args, **kw)
+    return res
+
+
 def apply(live, op, check):
     """Execute one op on the live objects. Returns (ok, [(class, message)], nontrivial)."""
     inst = live.inst
@@ -153,7 +166,7 @@ def apply(live, op, check):
     nontrivial = True
     if kind == "calc":
         k = op[1]
-        res = call(live.motif(k).calculate, live.seq)
+        res = reuse_call(live, live.motif(k).calculate, live.seq)
         if is_exc(res):
             return False, [("calculate %s" % res[1], "calculate(width %d) %s" % (len(inst.rows[k]), show(res)))], True
         sc = res[1]
@@ -177,7 +190,7 @@ def apply(live, op, check):
         return not bad, bad, nontrivial
     if kind in ("scan", "hold"):
         k, t, b = op[1], op[2], op[3]
-        res = call(lightmotif.scan, live.motif(k), live.seq, threshold=t, block_size=b)
+        res = reuse_call(live, lightmotif.scan, live.motif(k), live.seq, threshold=t, block_size=b)
         if inst.protein:
             # documented: the scanner is DNA only -> an ordinary exception is the expected outcome
             if is_panic(res):
